@@ -223,6 +223,9 @@ func (m *c8Model) createMailbox(rid, name string, flags, perm, attrs c8Set, uidv
 	m.Mboxes[b.ID] = b
 	m.ByRemote[rid] = b.ID
 	m.ByName[name] = b.ID
+	// a subscription that outlived an earlier mailbox of this name ends with the new mailbox
+	// (contract since the repair of F-C14-resub)
+	delete(m.DelSubs, name)
 	return b
 }
 
